@@ -48,6 +48,6 @@ obsolete = [json.load(open(m))["id"] for m in sorted(glob.glob("/verif/seeded/*/
 rows_live = [r for r in rows if r[0] not in obsolete]
 n = len(rows_live); hit = sum(1 for r in rows_live if r[5]); tgt = sum(1 for r in rows_live if r[6])
 out += ["", "%d changes (not counting %s, which the repair of finding F6 made harmless: see its meta.json); %d reported by at least one check; %d reported by the check of the property they were written against." % (n, ", ".join(obsolete) or "none", hit, tgt),
-        "", "Rounds: m1-m4 were written in earlier sessions; m5/m6 (\"needs something specific\"), m7/m8 (\"hard to hit: a conjunction of two or three circumstances\"), m9/m10 (the same, pointed at the crate's less-used public surface) m11/m12 and, for ten properties, m13/m14 (\"find what is still unlikely to be tried\") in the last one, by fresh sub-agents given only the property text and the titles of the earlier changes to avoid. For every change the check of its target property was re-run against the current base of /repo with the harness as it stood at the end of its round (`checklib/seedeval.py`); the `reported by` column also lists other checks from the run in which the change was first evaluated. DESIGN.md section 7 says which changes were missed at first and what was strengthened.", ""]
+        "", "Rounds: m1-m4 were written in earlier sessions; m5/m6 (\"needs something specific\"), m7/m8 (\"hard to hit: a conjunction of two or three circumstances\"), m9/m10 (the same, pointed at the crate's less-used public surface) m11/m12, m13/m14 for ten properties and m13 for the other ten (\"find what is still unlikely to be tried\") in the last one, by fresh sub-agents given only the property text and the titles of the earlier changes to avoid. For every change the check of its target property was re-run against the current base of /repo with the harness as it stood at the end of its round (`checklib/seedeval.py`); the `reported by` column also lists other checks from the run in which the change was first evaluated. DESIGN.md section 7 says which changes were missed at first and what was strengthened.", ""]
 open("/verif/seeded/README.md", "w").write("\n".join(out))
 print("\n".join(out[-3:]))
